@@ -207,6 +207,34 @@ def rule_status_before_witness(ctx):
                 n += 1
                 r.check(all(b.dominates(st[0], w) for w in wt), "%s|%s" % (t, b.path), "witness-first", "status is written before the witness", "the witness can be written before the status", st[0].loc())
     r.floor(n, 2, "acceptance writer closures")
+    # the single-extension writer: `NO` when there is no extension, the extension otherwise - chosen by the Option it receives
+    from ..flow import on_some_arm, on_none_arm
+
+    n2 = 0
+    for t in prog.bin_targets():
+        for b in prog.bodies_in(t):
+            st = [s for s in b.calls() if (callee_of(s) or {}).get("trait") == RW and callee_matches(callee_of(s), r"write_acceptance_status$")]
+            wt = [s for s in b.calls() if (callee_of(s) or {}).get("trait") == RW and callee_matches(callee_of(s), r"write_single_extension$")]
+            ne = [s for s in b.calls() if (callee_of(s) or {}).get("trait") == RW and callee_matches(callee_of(s), r"write_no_extension$")]
+            if st or not (wt or ne):
+                continue
+            # a body that writes an extension without a status: the SE writer
+            opt_params = [i for i in range(1, b.n_args + 1) if b.local_ty(i).startswith("core::option::Option<alloc::vec::Vec<")]
+            if not opt_params:
+                continue
+            n2 += 1
+            anchor = "%s|%s|single-extension-writer" % (t, b.path)
+
+            def arm_ok(sites, pred):
+                for s in sites:
+                    for c in conditions(b, s.bb):
+                        if pred(c) and any(o.kind == "param" and o.data in opt_params for o in origins(b, c.place, transparent=())):
+                            return True
+                return False
+
+            r.check(bool(ne) and arm_ok(ne, on_none_arm), anchor, "no-extension-not-written", "`NO` is written exactly when the solver returned no extension (None arm)", "the single-extension writer does not write the no-extension answer on the None arm: a missing extension is printed as an (empty) extension", b.loc())
+            r.check(bool(wt) and arm_ok(wt, on_some_arm), anchor, "extension-not-on-some-arm", "the extension line is written on the Some arm", "the extension line is not written under the Some arm of the solver's answer", b.loc())
+    r.floor(n2, 2, "single-extension writer closures")
 
 
 # ------------------------------------------------------------------------------------------
